@@ -305,7 +305,7 @@ type Query struct {
 	Keepers []*Keeper
 	Animals []interface{}
 	Things  []interface{}
-	Grid    [][]*Cell
+	Grid    [][]*GridCell
 	Tags    []string
 	Nums    []int
 	Boss    *Keeper
@@ -343,7 +343,7 @@ type Keeper struct {
 	Age    int
 	Pets   []interface{}
 	Friend *Keeper
-	Cells  [][]*Cell
+	Cells  [][]*GridCell
 	Rank   string
 	Dogs   []*Dog
 	MottoS string
@@ -368,8 +368,10 @@ type Bird struct {
 	Code     string
 }
 
-// Cell is a grid cell.
-type Cell struct {
+// GridCell is a grid cell: the Go type behind the GraphQL type Cell. The names
+// differ on purpose, so the binding exists only through RegisterType (or the
+// @go directive) and cannot be re-derived from the name once lost.
+type GridCell struct {
 	X     int
 	Y     int
 	Label string
@@ -567,9 +569,9 @@ func GenZoo(t *tape.Tape) *Query {
 			}
 		}
 		for r := 0; r < t.Draw(3); r++ {
-			var row []*Cell
+			var row []*GridCell
 			for c := 0; c < t.Draw(3); c++ {
-				row = append(row, &Cell{X: r, Y: c, Label: "c" + strconv.Itoa(r) + strconv.Itoa(c)})
+				row = append(row, &GridCell{X: r, Y: c, Label: "c" + strconv.Itoa(r) + strconv.Itoa(c)})
 			}
 			k.Cells = append(k.Cells, row)
 		}
@@ -594,11 +596,11 @@ func GenZoo(t *tape.Tape) *Query {
 		}
 		q.Things = append(q.Things, k)
 	}
-	q.Things = append(q.Things, &Cell{X: 9, Y: 9, Label: "lone", Code: 9.5})
+	q.Things = append(q.Things, &GridCell{X: 9, Y: 9, Label: "lone", Code: 9.5})
 	for r := 0; r < 1+t.Draw(3); r++ {
-		var row []*Cell
+		var row []*GridCell
 		for c := 0; c < t.Draw(4); c++ {
-			row = append(row, &Cell{X: r, Y: c, Label: "g" + strconv.Itoa(r) + strconv.Itoa(c)})
+			row = append(row, &GridCell{X: r, Y: c, Label: "g" + strconv.Itoa(r) + strconv.Itoa(c)})
 		}
 		q.Grid = append(q.Grid, row)
 	}
@@ -778,7 +780,7 @@ func zooField(q *Query, obj interface{}, name string, args map[string]interface{
 		case "code":
 			return o.Code, nil
 		}
-	case *Cell:
+	case *GridCell:
 		switch name {
 		case "x":
 			return o.X, nil
@@ -813,7 +815,15 @@ func typeNameOf(obj interface{}) string {
 	if t == nil {
 		return "nil"
 	}
-	return t.Name()
+	return gqlName(t.Name())
+}
+
+// gqlName maps a Go type name of the zoo to its GraphQL type name.
+func gqlName(goName string) string {
+	if goName == "GridCell" {
+		return "Cell"
+	}
+	return goName
 }
 
 // isNilPtr reports typed nil pointers (which must stay nil when wrapped).
@@ -859,7 +869,7 @@ func wrapI(q *Query, v interface{}, path []interface{}, useList bool) interface{
 	switch rv.Kind() {
 	case reflect.Ptr:
 		if rv.Elem().Kind() == reflect.Struct {
-			if q.Raw[rv.Elem().Type().Name()] {
+			if q.Raw[gqlName(rv.Elem().Type().Name())] {
 				return v // mixed root: this type is bound by reflection
 			}
 			return &INode{q: q, v: v, path: path}
@@ -869,7 +879,7 @@ func wrapI(q *Query, v interface{}, path []interface{}, useList bool) interface{
 		if et.Kind() == reflect.String || et.Kind() == reflect.Int {
 			return v // typed scalar slices are handled by ggql itself
 		}
-		if q.RawSlices && et.Kind() == reflect.Ptr && q.Raw[et.Elem().Name()] {
+		if q.RawSlices && et.Kind() == reflect.Ptr && q.Raw[gqlName(et.Elem().Name())] {
 			return v // typed slice of a raw type: ggql's reflect slice path
 		}
 		if useList {
@@ -1095,10 +1105,16 @@ func NewZoo(q *Query, strat Strategy) (*Zoo, error) {
 		// bind two union members through the @go directive instead of by name
 		// (the other branch of metaCheck): full path + type name, and bare name
 		sdl = strings.Replace(sdl, "type Keeper {", "type Keeper @go(type: \"verif/workload.Keeper\") {", 1)
-		sdl = strings.Replace(sdl, "type Cell {", "type Cell @go(type: \"Cell\") {", 1)
+		sdl = strings.Replace(sdl, "type Cell {", "type Cell @go(type: \"GridCell\") {", 1)
 	}
 	if err := z.Root.ParseString(sdl); err != nil {
 		return nil, err
+	}
+	if !q.GoDirectives && !q.NoRegister {
+		// the Go type behind Cell has another name: bound by registration only
+		if err := z.Root.RegisterType(&GridCell{}, "Cell"); err != nil {
+			return nil, err
+		}
 	}
 	if strat == StratReflect || strat == StratMixed {
 		if err := z.Root.RegisterType(&FilterIn{}, "Filter"); err != nil {
